@@ -226,8 +226,13 @@ def classify_known(ck, pt, model, c, st):
         if f:
             return f
     if c.kind == "illtyped":
-        # no known class: every directed typing defect must be rejected by the compiler (the one acceptance of the pinned
-        # tree, mixed If/ElseIf arms, was repaired by /repo ef38ba1), so an accepted-and-misbehaving one is a VIOLATION
+        # (mixed If/ElseIf arms were repaired by /repo ef38ba1.)  One class is still accepted by the tree: an If / ElseIf / Else
+        # chain in which an ANYTYPE arm sits between arms of both concrete types - If.type_of compares neighbours only and
+        # anytype matches everything.  Narrow: If chains only (not Cond), no none arm, all of u, b, a present.
+        if c.dname.startswith("chain:elseif:"):
+            ts = set(c.dname.split(":")[2])
+            if {"u", "b", "a"} <= ts and "n" not in ts:
+                return ck.match_known(lambda f: f["id"] == "if-chain-anytype-arm-bridges-concrete-types")
         return None
     if isinstance(c, DenseCase):
         # class decided by the faithful compile model, so that a changed optimiser is never mistaken for the pinned one
@@ -473,16 +478,21 @@ def main(argv):
     before = (stats["compile_error"], stats["accept"] + stats["reject"] + stats["uncovered"] + stats["fuel"])
     n_ill = 0
     ill_accepted = {}
-    for c in c05_illtyped.all_cases():
+    import itertools as _it
+    for c in _it.chain(c05_illtyped.all_cases(), c05_illtyped.exhaustive_cases(pt)):
         consider(c, 3)
         n_ill += 1
         if c.real and c.real[0] == "ok":
-            ill_accepted[c.dname] = ill_accepted.get(c.dname, 0) + 1
+            fam = c.dname if not c.dname.startswith(("op:", "chain:")) else c.dname.rsplit(":", 1)[0] if c.dname.startswith("chain:") else "op (well-typed operand assignments)"
+            ill_accepted[fam] = ill_accepted.get(fam, 0) + 1
+            if c.dname.startswith("chain:"):
+                ck.coverage.setdefault("chain_arm_types_accepted_by_compiler", []).append(c.dname[6:])
         elif c.real and c.real[1] not in PYTEAL_ERRORS:
             ck.notes.append("ill-typed program %s/%s crashed the compiler with %s (C20's business)" % (c.dname, c.ctx, c.real[1]))
     ck.coverage["illtyped_stream"] = {"offered": n_ill, "rejected_by_compiler": stats["compile_error"] - before[0],
                                       "accepted_by_compiler": sum(ill_accepted.values()), "accepted_defects": ill_accepted,
                                       "defects": len(c05_illtyped.defects()) + len(c05_illtyped.whole_programs()),
+                                      "operator_constructors": len(c05_illtyped.operator_constructors(pt)), "chain_specs": len(list(c05_illtyped.chain_specs())),
                                       "contexts": ["%s/v%d/fp=%s" % x for x in c05_illtyped.CONTEXTS]}
 
     # ---- 0d. recursion cycles through an ABIReturnSubroutine with an output argument, live locals of mixed storage types
